@@ -242,9 +242,18 @@ def main(argv=None):
     model_fail_idx: list[int] = []
     coq_err = ""
     t_coq = time.time()
-    model_runnable = ok_build or build(prop.case_vo)[0]
+    # the case module is built on its own: Properties/Cxx.v need not import it, and it must run even when a proof broke
+    model_runnable = build(prop.case_vo)[0]
     if cases and model_runnable:
-        pairs = [(c.coq_input, H.sx(c.impl_obs)) for c in cases]
+        pairs = []
+        for c in cases:
+            try:
+                pairs.append((c.coq_input, H.sx(c.impl_obs)))
+            except (RecursionError, TypeError, ValueError) as e:
+                # the implementation produced something that is not even a finite observation (e.g. a cyclic node graph)
+                if not c.oracle_fail:
+                    c.oracle_fail = f"observation: the observed state cannot be rendered ({type(e).__name__}): cyclic or malformed node graph"
+                pairs.append((c.coq_input, "L [A (-424242)]"))
         model_fail_idx, coq_err = H.check_cases_in_coq(pid, prop.case_module, prop.run_fn, pairs,
                                                        shard=getattr(prop, "shard", 300), jobs=12)
     elif cases:
